@@ -42,5 +42,10 @@ meta = {
     "results": summary,
     "origin": "written by an independent sub-agent that was given only the property text and its own scratch worktree",
 }
+jp = os.path.join(os.path.dirname(os.path.abspath(__file__)), "seeded_judgements.json")
+if os.path.exists(jp):
+    jj = json.load(open(jp))
+    if sid in jj:
+        meta["judgement"] = jj[sid]
 json.dump(meta, open(os.path.join(dst, "meta.json"), "w"), indent=1)
 print("kept", sid, summary.get("checks"))
